@@ -251,3 +251,112 @@ pub fn random_def(rng: &mut Rng, name: &str, conflicts: bool, many_tokens: bool)
     }
     Def { name: name.to_string(), utf8, skips, pats: kept, frags }
 }
+
+
+/// Source text of a "rich" random definition for the compiler-side engines (hash-sim, cli-sim), which only run the code
+/// generator and never compile its output: subpatterns, custom error types with callbacks, extras, `crate = ..`, lifetimes
+/// and type parameters, named and closure callbacks, several attributes per variant, enum-level skips with callbacks.
+pub fn rich_def_source(rng: &mut Rng, name: &str) -> String {
+    use std::fmt::Write as _;
+    let mut s = String::new();
+    let utf8 = !rng.chance(1, 6);
+    let lifetime = rng.chance(1, 3);
+    let generic = rng.chance(1, 8);
+    s.push_str("#[derive(Logos, Debug, Clone, PartialEq)]\n");
+    if !utf8 {
+        s.push_str("#[logos(utf8 = false)]\n");
+    }
+    match rng.below(5) {
+        0 => s.push_str("#[logos(error = LexingError)]\n"),
+        1 => s.push_str("#[logos(error(LexingError, LexingError::unrecognised))]\n"),
+        2 => s.push_str("#[logos(error(&'static str, callback = |lex| { lex.extras.count += 1; \"bad\" }))]\n"),
+        _ => {}
+    }
+    if rng.chance(1, 2) {
+        s.push_str("#[logos(extras = Extras)]\n");
+    }
+    if rng.chance(1, 8) {
+        s.push_str("#[logos(crate = some::path::_logos)]\n");
+    }
+    let nsub = rng.below(4);
+    for i in 0..nsub {
+        let body = if i > 0 && rng.chance(1, 2) { format!("(?&s{})[01]", i - 1) } else { random_regex(rng, false) };
+        let _ = writeln!(s, "#[logos(subpattern s{} = r\"{}\")]", i, body);
+    }
+    match rng.below(4) {
+        0 => s.push_str("#[logos(skip r\"[ \\t\\n]+\")]\n"),
+        1 => s.push_str("#[logos(skip(r\"//[^\\n]*\", allow_greedy = true, priority = 7))]\n"),
+        2 => s.push_str("#[logos(skip(r\" +\", callback = |lex| { lex.extras.count += 1; }, priority = 2))]\n"),
+        _ => {}
+    }
+    if generic {
+        s.push_str("#[logos(type T = u64)]\n");
+    }
+    let generics = match (lifetime, generic) {
+        (true, true) => "<'s, T>",
+        (true, false) => "<'s>",
+        (false, true) => "<T>",
+        _ => "",
+    };
+    let _ = writeln!(s, "pub enum {}{} {{", name, generics);
+    let nvar = rng.range(2, 10);
+    let mut prios: Vec<usize> = (1..=60).collect();
+    for v in 0..nvar {
+        let nattr = 1 + rng.below(3).min(rng.below(3));
+        let payload = match rng.below(6) {
+            0 if lifetime => Some(if utf8 { "&'s str" } else { "&'s [u8]" }),
+            1 => Some("u64"),
+            2 if generic => Some("T"),
+            3 => Some("usize"),
+            _ => None,
+        };
+        for _ in 0..nattr {
+            let is_token = rng.chance(1, 3);
+            let lit = if is_token {
+                format!("{:?}", VOCAB[rng.below(VOCAB.len())])
+            } else if nsub > 0 && rng.chance(1, 3) {
+                format!("r\"(?&s{}){}\"", rng.below(nsub), if rng.chance(1, 2) { "+" } else { "x" })
+            } else {
+                format!("r\"{}\"", random_regex(rng, true))
+            };
+            let mut args = vec![lit];
+            let cb = match (payload, rng.below(5)) {
+                (Some("&'s str"), _) | (Some("&'s [u8]"), _) => Some("|lex| lex.slice()".to_string()),
+                (Some("u64"), 0) => Some("parse_number".to_string()),
+                (Some("u64"), _) => Some("|lex| lex.slice().len() as u64".to_string()),
+                (Some("T"), _) => Some("callback = make_t".to_string()),
+                (Some(_), _) => Some("|lex| lex.slice().len()".to_string()),
+                (None, 0) => Some("logos::skip".to_string()),
+                (None, 1) => Some(format!("callback = cb_{}", v)),
+                (None, 2) => Some("|lex| { lex.extras.count += 1; }".to_string()),
+                _ => None,
+            };
+            if let Some(cb) = cb {
+                args.push(cb);
+            }
+            if rng.chance(3, 4) {
+                let k = rng.below(prios.len());
+                args.push(format!("priority = {}", prios.remove(k)));
+            }
+            if rng.chance(1, 10) {
+                args.push("ignore(case)".into());
+            }
+            // named arguments in a random order (the leading literal and a positional callback stay in front)
+            if args.len() > 3 && rng.chance(1, 2) {
+                let last = args.len() - 1;
+                args.swap(2, last);
+            }
+            let _ = writeln!(s, "    #[{}({})]", if is_token { "token" } else { "regex" }, args.join(", "));
+        }
+        match payload {
+            Some(ty) => {
+                let _ = writeln!(s, "    V{}({}),", v, ty);
+            }
+            None => {
+                let _ = writeln!(s, "    V{},", v);
+            }
+        }
+    }
+    s.push_str("}\n");
+    s
+}
